@@ -23,7 +23,7 @@ EXPLANATION = __doc__
 
 RT = 'trust_runtime::'
 MUT = re.compile(r'^trust_runtime::memory::VariableStorage::(set_global|set_local|set_instance_var|write_by_ref|set_retain)$')
-COERCERS = re.compile(r'harness::coerce::coerce_value_to_type$|io::coerce_from_io$|eval::stmt::coerce_loop_value$')
+COERCERS = re.compile(r'harness::coerce::coerce_value_to_type$|io::coerce_from_io$|eval::stmt::coerce_loop_value$|runtime::cycle::typed_for_slot$')
 DEFAULTS = re.compile(r'value::defaults::default_value_for_type_id$|default_value_for_type_id$')
 INSTANCES = re.compile(r'instance::create_(fb|class|program)_instance$')
 PARTIAL = re.compile(r'partial_access::write_partial_access$|write_partial_access$')
@@ -33,7 +33,6 @@ SAME_SLOT_FNS = {
     'scheduler::SharedGlobals::sync_into_locked': 'shared globals map is filled from the same-named globals of sibling runtimes (same declaration)',
 }
 EXTERNAL_FNS = {
-    'runtime::cycle::<impl trust_runtime::runtime::core::Runtime>::execute_cycle': 'debugger writes queued by the control plane (values typed by the control-plane parsers against the target)',
     'runtime::cycle::<impl trust_runtime::runtime::core::Runtime>::apply_forced_values': 'forced values set through the control plane',
     'runtime::mesh::<impl trust_runtime::runtime::core::Runtime>::apply_mesh_updates': 'mesh updates from peer runtimes with the same declarations',
     'runtime::core::Runtime::write_access': 'VAR_ACCESS writes through the access API',
@@ -41,6 +40,10 @@ EXTERNAL_FNS = {
 }
 # the frozen table: (function, mutator) -> allowed classes
 EXPECTED = {
+    ('runtime::cycle::<impl trust_runtime::runtime::core::Runtime>::execute_cycle', 'set_global'): {'coerced'},
+    ('runtime::cycle::<impl trust_runtime::runtime::core::Runtime>::execute_cycle', 'set_retain'): {'coerced'},
+    ('runtime::cycle::<impl trust_runtime::runtime::core::Runtime>::execute_cycle', 'set_instance_var'): {'coerced'},
+    ('runtime::cycle::<impl trust_runtime::runtime::core::Runtime>::execute_cycle', 'set_local'): {'coerced'},
     ('eval::call_function', 'set_local'): {'default', 'uncoerced'},
     ('eval::call_method', 'set_local'): {'default', 'uncoerced'},
     ('eval::call_function_block', 'set_instance_var'): {'uncoerced'},
